@@ -36,7 +36,7 @@ func (c *byteConn) SetDeadline(time.Time) error      { return nil }
 func (c *byteConn) SetReadDeadline(time.Time) error  { return nil }
 func (c *byteConn) SetWriteDeadline(time.Time) error { return nil }
 
-func handshakeLengths() *venum.Check {
+func handshakeLengths(thorough bool) *venum.Check {
 	return &venum.Check{Name: "handshake/declared-length-x-supplied-bytes", Family: "boundary", Run: func(c *venum.Ctx) {
 		var declared []uint64
 		for d := uint64(0); d <= 9; d++ {
@@ -47,6 +47,12 @@ func handshakeLengths() *venum.Check {
 		}
 		for d := uint64(4080); d <= 4110; d++ {
 			declared = append(declared, d)
+		}
+		if thorough { // every declared length up to twice the buffer instead of the neighbourhoods of its limits
+			declared = declared[:0]
+			for d := uint64(0); d <= 8200; d++ {
+				declared = append(declared, d)
+			}
 		}
 		declared = append(declared, 8191, 8192, 65535, 65536, 1<<24, 1<<31-1, 1<<31, 1<<32-2, 1<<32-1)
 		for _, d := range declared {
